@@ -13,10 +13,10 @@ import (
 // Rules added after the ninth round of independently seeded changes.
 
 // batchFlagLoweredOnlyWithAnError: SendBatch makes its second result false only where a result with an error exists:
-// next to the store of an error into a slot (the validation loop), or where waitForCompletion / findClients said
-// "not everything went well" (their own flags are covered by successFlagLoweredOnlyWithAnError and
-// locateFailuresClearOK). Lowering it for another reason (the batch context happens to be done after the last
-// result arrived) returns false with no error in any result. C07.R4.
+// next to the store of an error into a slot (the validation loop), or where waitForCompletion / findClients - or a
+// helper that passes their verdict on under the same discipline - said "not everything went well" (their own flags
+// are covered by successFlagLoweredOnlyWithAnError and locateFailuresClearOK). Lowering it for another reason (the
+// batch context happens to be done after the last result arrived) returns false with no error in any result. C07.R4.
 func batchFlagLoweredOnlyWithAnError(c *kit.Ctx) {
 	sb := c.Anchor("", "client", "SendBatch")
 	if sb == nil {
@@ -24,10 +24,14 @@ func batchFlagLoweredOnlyWithAnError(c *kit.Ctx) {
 	}
 	p := c.P
 	errF := p.Field("hrpc", "RPCResult", "Error")
-	k := sb.Signature.Results().Len() - 1
-	if errF == nil || k < 0 {
+	if errF == nil || sb.Signature.Results().Len() == 0 {
 		c.Unk(sb, "batch-flag-lowered-with-error", sb.Pos(), "hrpc.RPCResult.Error / the results of SendBatch not found")
 		return
+	}
+	type loweringSite struct {
+		b    *ssa.BasicBlock
+		pos  token.Pos
+		good bool
 	}
 	reporters := map[*ssa.Function]bool{}
 	for _, n := range []string{"waitForCompletion", "findClients"} {
@@ -35,173 +39,255 @@ func batchFlagLoweredOnlyWithAnError(c *kit.Ctx) {
 			reporters[f] = true
 		}
 	}
-	// "a helper reported a failure": a fact `flag == false` whose flag is a boolean result of one of the reporters
-	reported := func(facts []kit.Fact) bool {
-		for _, f := range facts {
-			v, pol := kit.NormBool(f.Cond, f.Pol)
-			if pol {
-				continue
-			}
-			ex, ok := kit.Root(v).(*ssa.Extract)
-			if !ok {
-				if ex, ok = v.(*ssa.Extract); !ok {
-					continue
-				}
-			}
-			if call, ok := ex.Tuple.(*ssa.Call); ok && reporters[call.Call.StaticCallee()] {
-				return true
+	busy := map[*ssa.Function]bool{}
+	var analyse func(fn *ssa.Function) []loweringSite
+	// a helper whose last result is a flag lowered under the same discipline passes the verdict on
+	isReporter := func(fn *ssa.Function) bool {
+		if fn == nil {
+			return false
+		}
+		if r, ok := reporters[fn]; ok {
+			return r
+		}
+		if busy[fn] || !p.IsSubject(fn) || fn.Blocks == nil || fn.Signature.Results().Len() == 0 {
+			return false
+		}
+		if bt, ok := fn.Signature.Results().At(fn.Signature.Results().Len() - 1).Type().Underlying().(*types.Basic); !ok || bt.Kind() != types.Bool {
+			return false
+		}
+		busy[fn] = true
+		sites := analyse(fn)
+		busy[fn] = false
+		good := len(sites) > 0
+		for _, st := range sites {
+			if !st.good {
+				good = false
 			}
 		}
-		return false
+		reporters[fn] = good
+		return good
 	}
-	hasError := func(facts []kit.Fact) bool {
-		for _, f := range facts {
-			if cmp, ok := kit.CanonCmp(f.Cond, f.Pol); ok && cmp.Op == token.NEQ && kit.IsNilConst(cmp.Y) && isLoadOfField(cmp.X, errF) {
+	analyse = func(fn *ssa.Function) []loweringSite {
+		k := fn.Signature.Results().Len() - 1
+		var flagAllocs []*ssa.Alloc
+		// "a helper reported a failure": a fact `flag == false` whose flag is a boolean result of one of the reporters
+		var hasErrorFn func(facts []kit.Fact) bool
+		// a flag computed here (by an expanded helper) whose every lowering is justified: `ok = true; for ... { if
+		// !groupOK { ok = false } }`
+		webSeen := map[ssa.Value]bool{}
+		var justifiedWeb func(v ssa.Value) bool
+		justifiedWeb = func(v ssa.Value) bool {
+			if webSeen[v] {
 				return true
 			}
-		}
-		return reported(facts)
-	}
-	storesError := func(b *ssa.BasicBlock) bool {
-		for _, in := range b.Instrs {
-			st, ok := in.(*ssa.Store)
-			if !ok {
-				continue
-			}
-			if fa, ok := st.Addr.(*ssa.FieldAddr); ok && kit.FieldVar(fa.X.Type(), fa.Field) == errF && !kit.IsNilConst(st.Val) {
-				return true
-			}
-		}
-		return false
-	}
-	n := 0
-	var flagAllocs []*ssa.Alloc
-	type pendingSite struct {
-		b   *ssa.BasicBlock
-		pos token.Pos
-	}
-	var pending []pendingSite
-	site := func(b *ssa.BasicBlock, pos token.Pos) { pending = append(pending, pendingSite{b, pos}) }
-	// the flag itself is known to be false here (`if !allOK { return res, false }`)
-	flagIsDown := func(facts []kit.Fact) bool {
-		for _, f := range facts {
-			v, pol := kit.NormBool(f.Cond, f.Pol)
-			if pol {
-				continue
-			}
-			if u, ok := v.(*ssa.UnOp); ok && u.Op == token.MUL {
-				addr := u.X
-				if fv, ok := addr.(*ssa.FreeVar); ok {
-					if b := kit.FreeVarBinding(fv); b != nil {
-						addr = b
+			webSeen[v] = true
+			switch x := v.(type) {
+			case *ssa.Phi:
+				for i, e := range x.Edges {
+					if val, isC := kit.BoolConst(e); isC {
+						if val {
+							continue
+						}
+						pred := x.Block().Preds[i]
+						if !(hasErrorFn(kit.EdgeFacts(pred, x.Block())) || kit.OnAllWays(pred, hasErrorFn, 0)) {
+							return false
+						}
+						continue
+					}
+					if !justifiedWeb(e) {
+						return false
 					}
 				}
-				for _, a := range flagAllocs {
-					if addr == ssa.Value(a) {
+				return true
+			case *ssa.Extract:
+				call, ok := x.Tuple.(*ssa.Call)
+				return ok && isReporter(call.Call.StaticCallee())
+			}
+			return false
+		}
+		reported := func(facts []kit.Fact) bool {
+			for _, f := range facts {
+				v, pol := kit.NormBool(f.Cond, f.Pol)
+				if pol {
+					continue
+				}
+				if ph, isPhi := v.(*ssa.Phi); isPhi {
+					for k := range webSeen {
+						delete(webSeen, k)
+					}
+					if justifiedWeb(ph) {
 						return true
 					}
-				}
-			}
-		}
-		return false
-	}
-	check := func(b *ssa.BasicBlock, pos token.Pos) {
-		n++
-		good := false
-		for d := b; d != nil; d = d.Idom() {
-			if storesError(d) {
-				good = true
-				break
-			}
-			if len(d.Preds) > 1 {
-				break
-			}
-		}
-		if !good {
-			good = kit.OnAllWays(b, func(facts []kit.Fact) bool { return hasError(facts) || flagIsDown(facts) }, 0)
-		}
-		c.Check(good, b.Parent(), "batch-flag-lowered-with-error", pos, "SendBatch lowers its success flag where a result with an error exists",
-			"SendBatch makes its second result false on a way on which no result with an error was recorded and no helper reported a failure (e.g. because the batch context is done although every call has been answered): it returns false with a nil error in every result")
-	}
-	// the variable (or value web) behind the flag
-	web := map[ssa.Value]bool{}
-	var grow func(v ssa.Value)
-	grow = func(v ssa.Value) {
-		if web[v] {
-			return
-		}
-		web[v] = true
-		switch x := v.(type) {
-		case *ssa.Phi:
-			for i, e := range x.Edges {
-				if val, isC := kit.BoolConst(e); isC && !val {
-					site(x.Block().Preds[i], firstPos(x.Block().Preds[i]))
 					continue
 				}
-				grow(e)
+				ex, ok := kit.Root(v).(*ssa.Extract)
+				if !ok {
+					if ex, ok = v.(*ssa.Extract); !ok {
+						continue
+					}
+				}
+				if call, ok := ex.Tuple.(*ssa.Call); ok && isReporter(call.Call.StaticCallee()) {
+					return true
+				}
 			}
-		case *ssa.UnOp:
-			if x.Op == token.MUL {
-				if a, ok := x.X.(*ssa.Alloc); ok {
-					for _, have := range flagAllocs {
-						if have == a {
+			return false
+		}
+		hasError := func(facts []kit.Fact) bool {
+			for _, f := range facts {
+				if cmp, ok := kit.CanonCmp(f.Cond, f.Pol); ok && cmp.Op == token.NEQ && kit.IsNilConst(cmp.Y) && isLoadOfField(cmp.X, errF) {
+					return true
+				}
+			}
+			return reported(facts)
+		}
+		hasErrorFn = hasError
+		// the flag itself is known to be false here (`if !allOK { return res, false }`)
+		flagIsDown := func(facts []kit.Fact) bool {
+			for _, f := range facts {
+				v, pol := kit.NormBool(f.Cond, f.Pol)
+				if pol {
+					continue
+				}
+				if u, ok := v.(*ssa.UnOp); ok && u.Op == token.MUL {
+					addr := u.X
+					if fv, ok := addr.(*ssa.FreeVar); ok {
+						if b := kit.FreeVarBinding(fv); b != nil {
+							addr = b
+						}
+					}
+					for _, a := range flagAllocs {
+						if addr == ssa.Value(a) {
+							return true
+						}
+					}
+				}
+			}
+			return false
+		}
+		storesError := func(b *ssa.BasicBlock) bool {
+			for _, in := range b.Instrs {
+				st, ok := in.(*ssa.Store)
+				if !ok {
+					continue
+				}
+				if fa, ok := st.Addr.(*ssa.FieldAddr); ok && kit.FieldVar(fa.X.Type(), fa.Field) == errF && !kit.IsNilConst(st.Val) {
+					return true
+				}
+			}
+			return false
+		}
+		var pending []loweringSite
+		site := func(b *ssa.BasicBlock, pos token.Pos) { pending = append(pending, loweringSite{b: b, pos: pos}) }
+		web := map[ssa.Value]bool{}
+		var grow func(v ssa.Value)
+		grow = func(v ssa.Value) {
+			if web[v] {
+				return
+			}
+			web[v] = true
+			switch x := v.(type) {
+			case *ssa.Phi:
+				for i, e := range x.Edges {
+					if val, isC := kit.BoolConst(e); isC && !val {
+						site(x.Block().Preds[i], firstPos(x.Block().Preds[i]))
+						continue
+					}
+					grow(e)
+				}
+			case *ssa.Extract:
+				// the verdict of a reporter handed on as it is
+				if call, ok := x.Tuple.(*ssa.Call); ok && !isReporter(call.Call.StaticCallee()) {
+					if _, isBool := kit.BoolConst(x); !isBool {
+						site(call.Block(), call.Pos())
+					}
+				}
+			case *ssa.BinOp:
+				if x.Op == token.AND || x.Op == token.LAND {
+					grow(x.X)
+					grow(x.Y)
+				}
+			case *ssa.UnOp:
+				if x.Op == token.MUL {
+					if a, ok := x.X.(*ssa.Alloc); ok {
+						for _, have := range flagAllocs {
+							if have == a {
+								return
+							}
+						}
+						flagAllocs = append(flagAllocs, a)
+					}
+				}
+			}
+		}
+		kit.Instrs(fn, func(in ssa.Instruction) {
+			r, ok := in.(*ssa.Return)
+			if !ok || k >= len(r.Results) {
+				return
+			}
+			v := kit.Res(r, k)
+			if val, isC := kit.BoolConst(v); isC {
+				if !val {
+					site(r.Block(), r.Pos())
+				}
+				return
+			}
+			grow(v)
+		})
+		for _, a := range flagAllocs {
+			var visit func(f *ssa.Function, target ssa.Value)
+			visit = func(f *ssa.Function, target ssa.Value) {
+				kit.Instrs(f, func(in ssa.Instruction) {
+					switch s := in.(type) {
+					case *ssa.Store:
+						if s.Addr != target {
 							return
 						}
-					}
-					flagAllocs = append(flagAllocs, a)
-				}
-			}
-		}
-	}
-	kit.Instrs(sb, func(in ssa.Instruction) {
-		r, ok := in.(*ssa.Return)
-		if !ok || k >= len(r.Results) {
-			return
-		}
-		v := kit.Res(r, k)
-		if val, isC := kit.BoolConst(v); isC {
-			if !val {
-				site(r.Block(), r.Pos())
-			}
-			return
-		}
-		grow(v)
-	})
-	for _, a := range flagAllocs {
-		var visit func(f *ssa.Function, target ssa.Value)
-		visit = func(f *ssa.Function, target ssa.Value) {
-			kit.Instrs(f, func(in ssa.Instruction) {
-				switch s := in.(type) {
-				case *ssa.Store:
-					if s.Addr != target {
-						return
-					}
-					if val, isC := kit.BoolConst(s.Val); isC && !val {
-						site(s.Block(), s.Pos())
-					} else if !isC {
-						if _, isLoad := s.Val.(*ssa.UnOp); !isLoad {
-							grow(s.Val)
+						if val, isC := kit.BoolConst(s.Val); isC && !val {
+							site(s.Block(), s.Pos())
+						} else if !isC {
+							if _, isLoad := s.Val.(*ssa.UnOp); !isLoad {
+								grow(s.Val)
+							}
+						}
+					case *ssa.MakeClosure:
+						for i, b := range s.Bindings {
+							if b == target {
+								cf := s.Fn.(*ssa.Function)
+								visit(cf, cf.FreeVars[i])
+							}
 						}
 					}
-				case *ssa.MakeClosure:
-					for i, b := range s.Bindings {
-						if b == target {
-							cf := s.Fn.(*ssa.Function)
-							visit(cf, cf.FreeVars[i])
-						}
-					}
-				}
-			})
+				})
+			}
+			visit(a.Parent(), a)
 		}
-		visit(a.Parent(), a)
+		for i := range pending {
+			b := pending[i].b
+			good := false
+			for d := b; d != nil; d = d.Idom() {
+				if storesError(d) {
+					good = true
+					break
+				}
+				if len(d.Preds) > 1 {
+					break
+				}
+			}
+			if !good {
+				good = kit.OnAllWays(b, func(facts []kit.Fact) bool { return hasError(facts) || flagIsDown(facts) }, 0)
+			}
+			pending[i].good = good
+		}
+		return pending
 	}
-	for _, ps := range pending {
-		check(ps.b, ps.pos)
+	sites := analyse(sb)
+	for _, st := range sites {
+		c.Check(st.good, st.b.Parent(), "batch-flag-lowered-with-error", st.pos, "SendBatch lowers its success flag where a result with an error exists",
+			"SendBatch makes its second result false on a way on which no result with an error was recorded and no helper reported a failure (e.g. because the batch context is done although every call has been answered): it returns false with a nil error in every result")
 	}
-	if n == 0 {
+	if len(sites) == 0 {
 		c.Unk(sb, "batch-flag-lowered-with-error", sb.Pos(), "no place found where SendBatch lowers its success flag")
 	}
-	_ = types.Typ
 }
 
 // constructorPanicsAreInputIndependent: the client builds its own requests (the probe of an establisher, the close
@@ -981,4 +1067,321 @@ func batchRetriesUntilNothingIsLeft(c *kit.Ctx) {
 		c.Unk(sb, "retry-loop-exit", sb.Pos(), "no exit of the retry loop found")
 	}
 	_ = p
+}
+
+// lookupFailuresAreFinal: a call whose region could not be located has its final error. Where SendBatch does not
+// return at once after findClients reported such a failure, it must remember it in the flag that survives the rounds
+// (unretryableErrorSeen): the end of a round recomputes the success flag from that flag alone, so a later round in
+// which the remaining calls succeed would otherwise report true while a result carries the lookup's error. C07.R4.
+func lookupFailuresAreFinal(c *kit.Ctx) {
+	sb := c.Anchor("", "client", "SendBatch")
+	if sb == nil {
+		return
+	}
+	fcs := kit.Calls(sb, kit.M("", "*client", "findClients"))
+	if len(fcs) == 0 {
+		return // reported by batchRetriesUntilNothingIsLeft
+	}
+	fc, ok := fcs[0].(*ssa.Call)
+	if !ok {
+		return
+	}
+	okV := kit.ExtractOf(fc, 1)
+	if okV == nil {
+		c.Unk(sb, "lookup-failure-final", fc.Pos(), "findClients no longer has a boolean second result")
+		return
+	}
+	// the reset: a store of a computed (non-constant) value into the variable the second result is read from
+	var flag *ssa.Alloc
+	kit.Instrs(sb, func(in ssa.Instruction) {
+		if r, isRet := in.(*ssa.Return); isRet && len(r.Results) == 2 {
+			if u, isLoad := kit.Res(r, 1).(*ssa.UnOp); isLoad && u.Op == token.MUL {
+				if a, isA := u.X.(*ssa.Alloc); isA {
+					flag = a
+				}
+			}
+		}
+	})
+	if flag == nil {
+		c.OK(sb, "lookup-failure-final", fc.Pos(), "the success flag is not a variable that is recomputed (no reset to protect)")
+		return
+	}
+	var resets []*ssa.Store
+	var sticky ssa.Value
+	kit.Instrs(sb, func(in ssa.Instruction) {
+		st, isSt := in.(*ssa.Store)
+		if !isSt || st.Addr != ssa.Value(flag) {
+			return
+		}
+		if _, isC := kit.BoolConst(st.Val); isC {
+			return
+		}
+		if l, isLoad := st.Val.(*ssa.UnOp); isLoad && l.Op == token.MUL && l.X == ssa.Value(flag) {
+			return // the named result stored to itself before the deferred calls run
+		}
+		resets = append(resets, st)
+		v, _ := kit.NormBool(st.Val, true)
+		if l, isLoad := v.(*ssa.UnOp); isLoad && l.Op == token.MUL {
+			sticky = l.X
+		}
+	})
+	if len(resets) == 0 {
+		c.OK(sb, "lookup-failure-final", fc.Pos(), "the success flag is never recomputed")
+		return
+	}
+	n := 0
+	kit.Instrs(sb, func(in ssa.Instruction) {
+		br, isIf := in.(*ssa.If)
+		if !isIf {
+			return
+		}
+		v, pol := kit.NormBool(br.Cond, true)
+		if v != okV && kit.Root(v) != okV {
+			return
+		}
+		failed := br.Block().Succs[1]
+		if !pol {
+			failed = br.Block().Succs[0]
+		}
+		n++
+		e := kit.PathFromBlock(failed, kit.PathQuery{
+			Target: func(x ssa.Instruction) bool {
+				for _, r := range resets {
+					if x == ssa.Instruction(r) {
+						return true
+					}
+				}
+				return false
+			},
+			Stop: func(x ssa.Instruction) bool {
+				st, isSt := x.(*ssa.Store)
+				if !isSt || sticky == nil || st.Addr != sticky {
+					return false
+				}
+				k, isC := kit.BoolConst(st.Val)
+				return isC && k
+			},
+			Known: kit.EdgeFacts(br.Block(), failed),
+		})
+		c.Check(e == nil, sb, "lookup-failure-final", fc.Pos(), "after a failed location step SendBatch returns, or remembers the failure in the flag that survives the rounds", "after findClients reported a call that could not be located SendBatch goes on and reaches the place where the success flag is recomputed from the flag that remembers final errors - which does not know about the lookup failure: a later round in which the other calls succeed returns true although a result carries the lookup's error: "+c.BlockPath(e))
+	})
+	if n == 0 {
+		c.Unk(sb, "lookup-failure-final", fc.Pos(), "the result of findClients is not tested in SendBatch")
+	}
+}
+
+// cellDecoderJudgesLengthsOnly: cellFromCellBlock refuses a KeyValue only for its framing - the length fields and
+// the bytes available. It never looks at the payload it hands out (timestamp, cell type, the bytes of row, family,
+// qualifier or value) to decide whether to refuse: every 64-bit timestamp and every type byte the encoder can write
+// comes back, so a test on them turns cells the client itself (or HBase) legitimately writes into decode errors -
+// which are retryable: the whole response is asked for again, for ever. C10.R3, C06.R1.
+func cellDecoderJudgesLengthsOnly(c *kit.Ctx) {
+	d := c.Anchor("hrpc", "", "cellFromCellBlock")
+	if d == nil {
+		return
+	}
+	p := c.P
+	payload := map[ssa.Value]string{}
+	for _, fname := range []string{"Timestamp", "CellType"} {
+		fv := p.Field("pb", "Cell", fname)
+		if fv == nil {
+			continue
+		}
+		kit.Instrs(d, func(in ssa.Instruction) {
+			st, ok := in.(*ssa.Store)
+			if !ok {
+				return
+			}
+			fa, ok := st.Addr.(*ssa.FieldAddr)
+			if !ok || kit.FieldVar(fa.X.Type(), fa.Field) != fv {
+				return
+			}
+			// the field is a pointer: follow it to the value it points to
+			v := kit.Root(st.Val)
+			if a, isA := v.(*ssa.Alloc); isA {
+				for _, s := range kit.StoresTo(a) {
+					payload[kit.Root(s)] = fname
+					if cv, isConv := s.(*ssa.Convert); isConv {
+						payload[kit.Root(cv.X)] = fname
+					}
+					if cv, isConv := kit.Root(s).(*ssa.Convert); isConv {
+						payload[kit.Root(cv.X)] = fname
+					}
+				}
+			} else {
+				payload[v] = fname
+			}
+		})
+	}
+	if len(payload) == 0 {
+		c.Unk(d, "decoder-judges-lengths-only", d.Pos(), "the values stored into Cell.Timestamp / Cell.CellType were not found")
+		return
+	}
+	derived := func(v ssa.Value) (string, bool) {
+		for i := 0; i < 6 && v != nil; i++ {
+			if n, ok := payload[v]; ok {
+				return n, true
+			}
+			if n, ok := payload[kit.Root(v)]; ok {
+				return n, true
+			}
+			switch x := v.(type) {
+			case *ssa.Convert:
+				v = x.X
+			case *ssa.ChangeType:
+				v = x.X
+			case *ssa.BinOp:
+				if n, ok := payload[kit.Root(x.X)]; ok {
+					return n, true
+				}
+				v = x.Y
+			default:
+				return "", false
+			}
+		}
+		return "", false
+	}
+	bad := 0
+	kit.Instrs(d, func(in ssa.Instruction) {
+		br, ok := in.(*ssa.If)
+		if !ok {
+			return
+		}
+		bo, ok := br.Cond.(*ssa.BinOp)
+		if !ok {
+			return
+		}
+		which, isPayload := derived(bo.X)
+		if !isPayload {
+			which, isPayload = derived(bo.Y)
+		}
+		if !isPayload {
+			return
+		}
+		// does one side of the branch lead straight to an error return?
+		for _, s := range br.Block().Succs {
+			e := kit.PathFromBlock(s, kit.PathQuery{Target: func(x ssa.Instruction) bool {
+				r, isRet := x.(*ssa.Return)
+				if !isRet {
+					return false
+				}
+				ev := returnedError(r)
+				return ev != nil && !kit.IsNilConst(kit.Root(ev)) && x.Block() == s
+			}})
+			if e != nil {
+				bad++
+				c.Bad(d, "decoder-judges-lengths-only", br.Cond.Pos(), "cellFromCellBlock refuses a cell because of its "+which+" (a payload field, not framing): a value the encoder can write - and HBase can send - no longer decodes; the decode error is retryable, so the response is requested again and again", "")
+			}
+		}
+	})
+	if bad == 0 {
+		c.OK(d, "decoder-judges-lengths-only", d.Pos(), "no error return of cellFromCellBlock depends on the timestamp or the type byte")
+	}
+}
+
+// returnedBuffersAreNotFreed: a function does not give back to the pool (directly or by a deferred call) the buffer
+// it returns, or one the returned slice may still share its array with (append only moves to a new array when the
+// old one is full): the caller would write a frame from memory the pool has already handed to the next sender.
+// C10.R7, C15.R2, C05.R6.
+func returnedBuffersAreNotFreed(c *kit.Ctx) {
+	p := c.P
+	free := kit.M("region", "", "freeBuffer")
+	n := 0
+	for _, fn := range p.Funcs {
+		if !p.IsSubject(fn) || fn.Blocks == nil {
+			continue
+		}
+		var frees []ssa.CallInstruction
+		kit.Instrs(fn, func(in ssa.Instruction) {
+			if ci, ok := in.(ssa.CallInstruction); ok && kit.CalleeName(ci) == free && len(ci.Common().Args) == 1 {
+				frees = append(frees, ci)
+			}
+		})
+		if len(frees) == 0 {
+			continue
+		}
+		// the slices the function returns, followed back through append / reslicing
+		origins := map[ssa.Value]bool{}
+		var walk func(v ssa.Value, depth int)
+		walk = func(v ssa.Value, depth int) {
+			if depth > 12 || origins[v] {
+				return
+			}
+			origins[v] = true
+			switch x := v.(type) {
+			case *ssa.Phi:
+				for _, e := range x.Edges {
+					walk(e, depth+1)
+				}
+			case *ssa.Slice:
+				walk(x.X, depth+1)
+			case *ssa.Call:
+				if kit.CalleeName(x) == "builtin.append" && len(x.Call.Args) > 0 {
+					walk(x.Call.Args[0], depth+1)
+				}
+			case *ssa.UnOp:
+				if a, ok := x.X.(*ssa.Alloc); ok && x.Op == token.MUL {
+					for _, s := range kit.StoresTo(a) {
+						walk(s, depth+1)
+					}
+				}
+			case *ssa.ChangeType:
+				walk(x.X, depth+1)
+			}
+		}
+		kit.Instrs(fn, func(in ssa.Instruction) {
+			if r, ok := in.(*ssa.Return); ok {
+				for i := range r.Results {
+					v := kit.Res(r, i)
+					if _, isSlice := v.Type().Underlying().(*types.Slice); isSlice {
+						walk(v, 0)
+					}
+				}
+			}
+		})
+		for _, f := range frees {
+			n++
+			arg := f.Common().Args[0]
+			shared := origins[arg] || origins[kit.Root(arg)]
+			c.Check(!shared, fn, "returned-buffer-not-freed", f.Pos(), "the buffer given back is not one the function returns", kit.FuncName(fn)+" gives a buffer back to the pool that the slice it returns may still share its array with (append moves to a new array only when the old one is full - with a warm pool it is not): the caller writes its frame from memory the pool has handed to the next sender")
+		}
+	}
+	if n == 0 {
+		c.Unk(nil, "returned-buffer-not-freed", token.NoPos, "no call of freeBuffer found")
+	}
+}
+
+// cacheDelAlwaysDetaches: clientRegionCache.del takes the region's connection away whenever the region has one -
+// also when that connection is no longer a key of the cache (clientDown dropped it while the region, already marked
+// unavailable, was skipped). A del that only detaches what it finds in the map leaves the replaced region with a
+// client: its waiter wakes up, finds the region "available with a connection" and sends the row under the dead
+// region's name again. C01.R2, C08.R5, C20.R3.
+func cacheDelAlwaysDetaches(c *kit.Ctx) {
+	del := c.Anchor("", "clientRegionCache", "del")
+	if del == nil {
+		return
+	}
+	r := paramOfType(del, "/hrpc.RegionInfo", 0)
+	if r == nil {
+		c.Unk(del, "del-detaches", del.Pos(), "clientRegionCache.del no longer takes the region")
+		return
+	}
+	e := kit.PathFromEntry(del, kit.PathQuery{
+		Stop: func(x ssa.Instruction) bool {
+			call, ok := x.(*ssa.Call)
+			return ok && kit.CalleeName(call) == hrpcRI+"SetClient" && kit.Root(call.Call.Value) == ssa.Value(r) && kit.IsNilConst(kit.Root(call.Call.Args[0]))
+		},
+		SkipEdge: func(from, to *ssa.BasicBlock) bool {
+			for _, f := range kit.EdgeFacts(from, to) {
+				if cmp, ok := kit.CanonCmp(f.Cond, f.Pol); ok && cmp.Op == token.EQL && kit.IsNilConst(cmp.Y) {
+					if call, ok := kit.Root(cmp.X).(*ssa.Call); ok && kit.CalleeName(call) == hrpcRI+"Client" && kit.Root(call.Call.Value) == ssa.Value(r) {
+						return true
+					}
+				}
+			}
+			return false
+		},
+		IgnorePanics: true,
+	})
+	c.Check(e == nil, del, "del-detaches", del.Pos(), "every way through del clears the region's client unless it has none", "clientRegionCache.del can return without taking the region's connection away although it has one (e.g. because that connection is no longer in the cache): the replaced region keeps a client, its waiter sends the row under the dead region's name again: "+c.BlockPath(e))
 }
